@@ -821,5 +821,3 @@ fn c14_t0_init_free_stack_matches_disk_list() {
 	std::mem::forget(t);
 }
 }
-
-
